@@ -67,13 +67,16 @@ int main(int argc, char **argv)
 	std::vector<Spec> S;
 	try { S = specs(5, A.tier, fam); }
 	catch (std::exception &e) { printf("{\"t\":\"error\",\"what\":\"%s\"}\n", jesc(e.what()).c_str()); return 2; }
-	R.bound = "family=" + fam + " cells=" + str(S.size());
+	R.bound = "family=" + fam + " cells=" + str(S.size()) + " seeds/cell=" + str((A.tier == "thorough") ? 2 : 1);
 	R.max_samples = 3;
 	Ctr T;
 	uint64_t cells_done = 0, positions = 0, pubinputs = 0, order2_inputs_accepted = 0;
 	std::set<std::string> reported;   // one violation line per (key) and cell
-	for (size_t si = 0; si < S.size(); si++)
+	const unsigned nseeds = (A.tier == "thorough") ? 2 : 1;     // baseline transcripts (coin seeds) per cell
+	for (size_t sj = 0; sj < S.size() * nseeds; sj++)
 	{
+		size_t si = sj / nseeds;
+		unsigned sidx = sj % nseeds;
 		bool mine = R.mine();
 		if (!mine || !R.selected(S[si].id)) continue;
 		if (R.out_of_time()) break;
@@ -81,7 +84,7 @@ int main(int argc, char **argv)
 		printf("{\"t\":\"at\",\"case\":\"%s\"}\n", jesc(caseid).c_str());
 		fflush(stdout);
 		CellP c;
-		uint64_t seed = cell_seed(caseid, 0);
+		uint64_t seed = cell_seed(caseid, sidx);
 		RunOut H;
 		std::vector<std::string> proof;
 		try
